@@ -48,6 +48,10 @@ def hostile():
     res.append(("regex_eof", b"JSIGHT 0.3\nTYPE @a regex"))
     res.append(("regex_open", b"JSIGHT 0.3\nTYPE @a regex\n/ab\\"))
     res.append(("unclosed_block_comment", b"JSIGHT 0.3\n### never closed\nGET /a\n"))
+    for k in (0, 4, 12, 20):
+        for L in (199, 201, 204, 210):
+            res.append(("long_indented_error_line_%d_%d" % (k, L), b"JSIGHT 0.3\nINFO\n" + b" " * k + b"Bogus" + b"x" * (L - k - 5) + b"\n"))
+            res.append(("long_indented_include_line_%d_%d" % (k, L), b"JSIGHT 0.3\n" + b"\t" * k + b"INCLUDE bad.jst" + b" " * max(0, L - k - 15) + b"\n"))
     res.append(("paren_first", b"("))
     res.append(("empty_include_in_parens", b"JSIGHT 0.3\nURL /a\n(\nINCLUDE empty.jst\n)\n"))
     res.append(("empty_include_unclosed", b"JSIGHT 0.3\nURL /a\n(\nINCLUDE empty.jst\n"))
@@ -140,7 +144,7 @@ def main(tier):
                 add("include_empty_file", "ie%d_%s" % (n, nm), ff)
     # 5. hostile shapes
     for nm, data in hostile():
-        add("hostile", "h:" + nm, {"main.jst": b64(data), "empty.jst": b64(b"")})
+        add("hostile", "h:" + nm, {"main.jst": b64(data), "empty.jst": b64(b""), "bad.jst": b64(b"Bogus\n")})
     import macrograph
     macrograph.run(chk, tier, "C01")
     obs = harness("run", cases)
